@@ -807,6 +807,13 @@ const char *UtilContext::get_hex(const char *token, uint32_t *num)
     s++;
   }
 
+  // A number needs at least one digit (callers loop until nullptr).
+  if (s == 0)
+  {
+    printf("Illegal number '%s'\n", token);
+    return nullptr;
+  }
+
   *num = n;
 
   // Skip the separator (space or h), but never the end of the string.
